@@ -29,6 +29,8 @@ impl Story {
 
     /// Removes the specified flow from the story.
     pub fn remove_flow(&mut self, flow_name: &str) -> Result<(), StoryError> {
+        self.if_async_we_cant("remove flow")?;
+
         self.get_state_mut().remove_flow_internal(flow_name)
     }
 
